@@ -224,6 +224,8 @@ def check(pid, tier, seed, jobs, out=print):
         scn = gen(prop, seed, tier, v['index'])
 
         def still(c, k=k):
+            if not getattr(prop, 'valid', lambda s: True)(c):
+                return False          # minimisation must stay inside the generator's premises
             res = prop.execute(c)
             return any(vkey(x) == k for x in res['violations'])
         try:
